@@ -378,6 +378,23 @@ def all_parts(pid, tier):
     return []
 
 
+def twin_part(pid):
+    """Vacuity guard: a small instance of the property's main harness whose final check(False) must be violated."""
+    import dataclasses as dc
+
+    P = functools.partial
+    parts = all_parts(pid, "quick")
+    base = parts[0]
+    fn = base.harness
+    cfg = fn.args[0]
+    small = {}
+    for f, v in (("N", 2), ("length", 1), ("budget", 1)):
+        if any(x.name == f for x in dc.fields(cfg)):
+            small[f] = min(getattr(cfg, f), v) if f != "length" else v
+    tw = dc.replace(cfg, twin=True, **small)
+    return Part("reachability-twin", P(fn.func, tw), {"what": "same harness, small bound, final check(False) must be reported as violated"}, 600, 6, expect_violation=True)
+
+
 def main(argv):
     if len(argv) == 3 and argv[1] == "--replay":
         from runner import replay_file
@@ -390,28 +407,28 @@ def main(argv):
     os.environ["VERIF_TIER"] = tier
     if pid in ("C02", "C03", "C04", "C05", "C06", "C08", "C09", "C14", "C17"):
         parts = sched_parts(pid, tier)
-        return run_check(pid, tier, LEVEL[pid], parts, ENV_ASSUMPTIONS, RULE, extra=KERNELS.get(pid) and kernel_extra(pid, KERNELS[pid]))
+        return run_check(pid, tier, LEVEL[pid], parts + [twin_part(pid)], ENV_ASSUMPTIONS, RULE, extra=KERNELS.get(pid) and kernel_extra(pid, KERNELS[pid]))
     if pid in ("C07", "C12", "C13"):
         rule = ("paths of the symbolic execution of the real graph algebra on programs built through the public API: shape x labeling x selection x alias form x "
                 "debug placement are solver-chosen decisions, priorities and node values symbolic; distinct = distinct (shape, labeling, selection, placement)")
-        return run_check(pid, tier, "model_checking", graph_parts(pid, tier), REAL_ENV_ASSUMPTIONS, rule, extra=KERNELS.get(pid) and kernel_extra(pid, KERNELS[pid]))
+        return run_check(pid, tier, "model_checking", graph_parts(pid, tier) + [twin_part(pid)], REAL_ENV_ASSUMPTIONS, rule, extra=KERNELS.get(pid) and kernel_extra(pid, KERNELS[pid]))
     if pid in ("C01", "C10", "C20"):
         rule = ("generated describing functions: every program within the deviation budget of the base program is built with @xn/@dag and called with symbolic inputs; "
                 "the same describing code evaluated with the plain callables is the reference; z3 proves result equality for all inputs and node functions; "
                 "distinct = distinct program spec")
-        return run_check(pid, tier, "translation_validation", dataflow_parts(pid, tier), REAL_ENV_ASSUMPTIONS + ENV_ASSUMPTIONS[:3], rule, extra=KERNELS.get(pid) and kernel_extra(pid, KERNELS[pid]))
+        return run_check(pid, tier, "translation_validation", dataflow_parts(pid, tier) + [twin_part(pid)], REAL_ENV_ASSUMPTIONS + ENV_ASSUMPTIONS[:3], rule, extra=KERNELS.get(pid) and kernel_extra(pid, KERNELS[pid]))
     if pid == "C19":
         rule = ("programs x (inputs, outputs) x alias form, all solver-chosen; composed DAG called with fresh symbolic values; reference = original program with the input "
                 "nodes' values substituted; distinct = distinct (program, inputs, outputs, alias form)")
-        return run_check(pid, tier, "translation_validation", compose_parts(pid, tier), REAL_ENV_ASSUMPTIONS, rule)
+        return run_check(pid, tier, "translation_validation", compose_parts(pid, tier) + [twin_part(pid)], REAL_ENV_ASSUMPTIONS, rule)
     if pid in ("C11", "C15", "C18"):
         rule = ("operation histories on one DAG instance: every sequence of operations up to the stated length x program / setup placement / selection is a solver-chosen path; "
                 "call arguments are fresh symbolic values and node values are terms, so result equalities are decided by z3; distinct = distinct (program, history)")
-        return run_check(pid, tier, "model_checking", history_parts(pid, tier), REAL_ENV_ASSUMPTIONS, rule, extra=KERNELS.get(pid) and kernel_extra(pid, KERNELS[pid]))
+        return run_check(pid, tier, "model_checking", history_parts(pid, tier) + [twin_part(pid)], REAL_ENV_ASSUMPTIONS, rule, extra=KERNELS.get(pid) and kernel_extra(pid, KERNELS[pid]))
     if pid == "C16":
         rule = ("real threads under a cooperative controller: the order in which threads pass node-entry gates / the pause point of a build and the other thread's operation are solver-chosen; "
                 "results are terms over per-thread symbolic arguments; distinct = distinct (shape, alternation) resp. (pause point, operation)")
-        return run_check(pid, tier, "model_checking", thread_parts(pid, tier), REAL_ENV_ASSUMPTIONS + ["threads interleave only at node entries and at the chosen pause point of a describing function; finer interleavings are outside the claim"], rule)
+        return run_check(pid, tier, "model_checking", thread_parts(pid, tier) + [twin_part(pid)], REAL_ENV_ASSUMPTIONS + ["threads interleave only at node entries and at the chosen pause point of a describing function; finer interleavings are outside the claim"], rule)
     print("HARNESS-ERROR unknown property %s" % pid)
     return 2
 
